@@ -72,6 +72,15 @@ private:
             "::sbepp::to_underlying({})", value_ref_to_enumerator(value_ref));
     }
 
+    void add_value_ref_dependency(const std::string_view value_ref)
+    {
+        // the accessor mentions the enum so its header has to be included
+        const auto parsed = utils::parse_value_ref(value_ref);
+        dependencies.emplace(
+            utils::get_encoding_name(
+                utils::get_schema_encoding(*schema, parsed.enum_name)));
+    }
+
     std::string get_const_value(const sbe::type& t)
     {
         // the only difference from `types_compiler::get_const_value` is that
@@ -79,6 +88,7 @@ private:
         assert(t.value_ref || t.constant_value);
         if(t.value_ref)
         {
+            add_value_ref_dependency(*t.value_ref);
             return value_ref_to_enum_value(*t.value_ref);
         }
 
@@ -127,6 +137,7 @@ private:
         }
 
         context.value_type = utils::primitive_type_to_cpp_type(f.type);
+        add_value_ref_dependency(*f.value_ref);
 
         return normal_accessors::make_constant_accessor(
             f.name, context.value_type, value_ref_to_enum_value(*f.value_ref));
@@ -200,7 +211,7 @@ private:
             return fmt::format(
                 // clang-format off
 R"(
-    SBEPP_CPP20_CONSTEXPR std::size_t operator()(
+    SBEPP_CPP20_CONSTEXPR ::std::size_t operator()(
         ::sbepp::detail::size_bytes_tag) const noexcept
     {{
         return {header_size} + (*this)(::sbepp::detail::get_block_length_tag{{}});
@@ -213,7 +224,7 @@ R"(
         return fmt::format(
             // clang-format off
 R"(
-    SBEPP_CPP20_CONSTEXPR std::size_t operator()(
+    SBEPP_CPP20_CONSTEXPR ::std::size_t operator()(
         ::sbepp::detail::size_bytes_tag) const noexcept
     {{
         const auto last = {last_member}();
